@@ -4960,14 +4960,6 @@ def PrefixedArray(countfield, subcon):
         "items" / subcon[this.count],
     )
 
-    def _emitparse(code):
-        return "ListContainer((%s) for i in range(%s))" % (subcon._compileparse(code), countfield._compileparse(code), )
-    macro._emitparse = _emitparse
-
-    def _emitbuild(code):
-        return f"(reuse(len(obj), lambda obj: {countfield._compilebuild(code)}), list({subcon._compilebuild(code)} for obj in obj), obj)[2]"
-    macro._emitbuild = _emitbuild
-
     def _actualsize(stream, context, path):
         position1 = stream_tell(stream, path)
         count = countfield._parse(stream, context, path)
